@@ -5,7 +5,7 @@
    NOT proved here (validated numerically by the harness oracle on the implementation): integer
    Berg-Luescher charge for whole-sphere wrappings, hedgehog = one Bloch point, Nxx+Nyy+Nzz = -delta,
    demag factors summing to -|M|. *)
-From DF Require Import Prelude FieldK NDArray Diff Integrate Region Mesh Tools C19_vec.
+From DF Require Import Prelude FieldK NDArray Diff Integrate Region Mesh Tools C19_vec C19_density C19_cont C19_angle.
 
 (* --- the algebra behind rotation invariance --- *)
 Theorem C19_triple_product_under_matrix : forall (K : FOps), FLaws K -> forall (M : mat3 K) (a b c : vec K),
@@ -25,3 +25,163 @@ Theorem C19_bl_triangle_rot_invariant : forall (K : FOps), FLaws K ->
   bl_angle K Omega (mv K M a) (mv K M b) (mv K M c) = bl_angle K Omega a b c.
 Proof. exact bl_angle_rot. Qed.
 Print Assumptions C19_bl_triangle_rot_invariant.
+
+(* reversal of all vectors: the solid angle is assumed odd in the triple product (trusted: Omega) *)
+Theorem C19_bl_triangle_reverse_sign : forall (K : FOps), FLaws K ->
+  forall (Omega : K -> K -> K -> K -> K) (a b c : vec K),
+  (forall d1 d2 d3 t, Omega d1 d2 d3 (fopp t) = fopp (Omega d1 d2 d3 t)) ->
+  bl_angle K Omega (vneg K a) (vneg K b) (vneg K c) = fopp (bl_angle K Omega a b c).
+Proof. exact bl_angle_neg. Qed.
+Print Assumptions C19_bl_triangle_reverse_sign.
+
+(* --- Berg-Luescher density, for every shape, mask and cell (neighbour logic included) --- *)
+Theorem C19_rot_invariant_lattice : forall (K : FOps), FLaws K ->
+  forall Omega (M : mat3 K) sh h1 h2 (o : idx -> K) valid ij,
+  col_orthogonal K M -> det3 K M = f1 K ->
+  tcd_bl K Omega sh h1 h2 (amap K (mv K M) o) valid ij = tcd_bl K Omega sh h1 h2 o valid ij.
+Proof. exact tcd_bl_rot. Qed.
+Print Assumptions C19_rot_invariant_lattice.
+
+Theorem C19_reverse_sign_lattice : forall (K : FOps), FLaws K ->
+  forall Omega sh h1 h2 (o : idx -> K) valid ij,
+  (forall d1 d2 d3 t, Omega d1 d2 d3 (fopp t) = fopp (Omega d1 d2 d3 t)) ->
+  tcd_bl K Omega sh h1 h2 (amap K (vneg K) o) valid ij = fopp (tcd_bl K Omega sh h1 h2 o valid ij).
+Proof. exact tcd_bl_neg. Qed.
+Print Assumptions C19_reverse_sign_lattice.
+
+Theorem C19_uniform_zero_lattice : forall (K : FOps), FLaws K ->
+  forall Omega sh h1 h2 (o : idx -> K) valid (v : vec K) ij,
+  (forall d1 d2 d3, Omega d1 d2 d3 (f0 K) = f0 K) -> (forall i, vec_at K o i = v) ->
+  tcd_bl K Omega sh h1 h2 o valid ij = f0 K.
+Proof. exact tcd_bl_uniform. Qed.
+Print Assumptions C19_uniform_zero_lattice.
+
+Theorem C19_lattice_ignores_invalid_cells : forall (K : FOps) Omega sh h1 h2 (o o' : idx -> K) valid ij,
+  (forall i, valid i = true -> vec_at K o i = vec_at K o' i) ->
+  tcd_bl K Omega sh h1 h2 o valid ij = tcd_bl K Omega sh h1 h2 o' valid ij.
+Proof. exact tcd_bl_ignores_invalid. Qed.
+Print Assumptions C19_lattice_ignores_invalid_cells.
+
+(* mesh rescaled by s (translation never enters: the model takes no position): density / s^2 ... *)
+Theorem C19_mesh_rescale_lattice_density : forall (K : FOps), FLaws K ->
+  forall Omega sh h1 h2 s (o : idx -> K) valid ij,
+  s <> f0 K -> h1 <> f0 K -> h2 <> f0 K -> (forall k, (1 <= k)%nat -> fnat K k <> f0 K) ->
+  tcd_bl K Omega sh (fmul h1 s) (fmul h2 s) o valid ij = fdiv (tcd_bl K Omega sh h1 h2 o valid ij) (fmul s s).
+Proof. exact tcd_bl_mesh_scale. Qed.
+Print Assumptions C19_mesh_rescale_lattice_density.
+
+(* ... and the charge (density/s^2 integrated with cell area * s^2) is unchanged *)
+Theorem C19_mesh_rescale_charge : forall (K : FOps), FLaws K -> forall fabs sh dV s (q : idx -> K),
+  s <> f0 K ->
+  charge K fabs false sh (fmul dV (fmul s s)) (fun i => fdiv (q i) (fmul s s)) = charge K fabs false sh dV q.
+Proof. exact charge_mesh_scale. Qed.
+Print Assumptions C19_mesh_rescale_charge.
+
+Theorem C19_charge_of_reversed_density : forall (K : FOps), FLaws K -> forall fabs sh dV (q : idx -> K),
+  charge K fabs false sh dV (fun i => fopp (q i)) = fopp (charge K fabs false sh dV q).
+Proof. exact charge_neg. Qed.
+Print Assumptions C19_charge_of_reversed_density.
+
+Theorem C19_charge_depends_on_density_only : forall (K : FOps) fabs absolute sh dV (q q' : idx -> K),
+  (forall i, q i = q' i) -> charge K fabs absolute sh dV q = charge K fabs absolute sh dV q'.
+Proof. exact charge_ext. Qed.
+Print Assumptions C19_charge_depends_on_density_only.
+
+(* --- continuous density: the derivative (every stencil, every mask, every run) commutes with a linear
+       map of the vectors; the density picks up det M.  Open directions. --- *)
+Theorem C19_derivative_commutes_with_rotation : forall (K : FOps), FLaws K ->
+  forall sh ax order h valid (M : mat3 K) (o : idx -> K) i,
+  (ax < length i)%nat -> length i = length sh ->
+  vec_at K (diff_nd K sh 3 ax order h false true (amap K (mv K M) o) valid) i
+  = mv K M (vec_at K (diff_nd K sh 3 ax order h false true o valid) i).
+Proof. exact diff_nd_mv. Qed.
+Print Assumptions C19_derivative_commutes_with_rotation.
+
+Theorem C19_rot_invariant_continuous : forall (K : FOps), FLaws K ->
+  forall c4 sh h1 h2 (M : mat3 K) (o : idx -> K) valid i,
+  length sh = 2%nat -> length i = 2%nat -> det3 K M = f1 K ->
+  tcd_cont K c4 sh h1 h2 false false (amap K (mv K M) o) valid i = tcd_cont K c4 sh h1 h2 false false o valid i.
+Proof. exact tcd_cont_rot. Qed.
+Print Assumptions C19_rot_invariant_continuous.
+
+Theorem C19_continuous_density_under_any_matrix : forall (K : FOps), FLaws K ->
+  forall c4 sh h1 h2 (M : mat3 K) (o : idx -> K) valid i,
+  length sh = 2%nat -> length i = 2%nat ->
+  tcd_cont K c4 sh h1 h2 false false (amap K (mv K M) o) valid i
+  = fmul (det3 K M) (tcd_cont K c4 sh h1 h2 false false o valid i).
+Proof. exact tcd_cont_mv. Qed.
+Print Assumptions C19_continuous_density_under_any_matrix.
+
+(* reversal = the matrix -I (mv (-I) v = -v, det = -1) *)
+Theorem C19_reverse_sign_continuous : forall (K : FOps), FLaws K ->
+  forall c4 sh h1 h2 (o : idx -> K) valid i,
+  length sh = 2%nat -> length i = 2%nat ->
+  tcd_cont K c4 sh h1 h2 false false (amap K (mv K (mneg K)) o) valid i
+  = fopp (tcd_cont K c4 sh h1 h2 false false o valid i).
+Proof. exact tcd_cont_neg. Qed.
+Print Assumptions C19_reverse_sign_continuous.
+
+Theorem C19_minus_identity_reverses : forall (K : FOps), FLaws K -> forall v : vec K,
+  mv K (mneg K) v = vneg K v.
+Proof. exact mv_mneg. Qed.
+Print Assumptions C19_minus_identity_reverses.
+
+(* emergent field (pointwise): picks up det M, hence invariant under rotations, odd under reversal *)
+Theorem C19_emergent_field_under_matrix : forall (K : FOps), FLaws K ->
+  forall (M : mat3 K) (m d0 d1 d2 md0 md1 md2 mo : idx -> K) i,
+  vec_at K mo i = mv K M (vec_at K m i) ->
+  vec_at K md0 i = mv K M (vec_at K d0 i) -> vec_at K md1 i = mv K M (vec_at K d1 i) ->
+  vec_at K md2 i = mv K M (vec_at K d2 i) ->
+  emergent_pt K mo md0 md1 md2 i = vscale K (det3 K M) (emergent_pt K m d0 d1 d2 i).
+Proof. intros K HK M m d0 d1 d2 md0 md1 md2 mo i. exact (emergent_pt_mv K HK M m d0 d1 d2 md0 md1 md2 mo i). Qed.
+Print Assumptions C19_emergent_field_under_matrix.
+
+(* --- neighbouring-cell angles --- *)
+Theorem C19_angle_value : forall (K : FOps) acosf clipf degf ax (o : idx -> K) i,
+  angle_arr K acosf clipf degf ax false o i
+  = acosf (clipf (dot3 K (vec_at K o i) (vec_at K o (set_nth ax (nth ax i 0%nat + 1)%nat i)))).
+Proof. exact angle_value. Qed.
+Print Assumptions C19_angle_value.
+
+Theorem C19_angle_shape : forall sh ax, (ax < length sh)%nat ->
+  nth ax (angle_shape sh ax) 0%nat = (nth ax sh 0%nat - 1)%nat /\
+  forall b, b <> ax -> nth b (angle_shape sh ax) 0%nat = nth b sh 0%nat.
+Proof. exact angle_shape_axis. Qed.
+Print Assumptions C19_angle_shape.
+
+(* the mesh along the chosen direction: corners moved inwards by half a cell, built with the same cell:
+   exactly one cell fewer, divisible, same cell, strictly inside the source *)
+Theorem C19_angle_mesh_axis : forall (lo hi : Q) (k : Z), (2 <= k)%Z -> (lo < hi)%Q ->
+  let c := cell_of lo hi k in
+  Qround_half_even (((hi - c / 2) - (lo + c / 2)) / c)%Q = (k - 1)%Z /\
+  (Qremainder ((hi - c / 2) - (lo + c / 2)) c == 0)%Q /\
+  (cell_of (lo + c / 2) (hi - c / 2) (k - 1) == c)%Q /\
+  (lo < lo + c / 2 /\ lo + c / 2 < hi - c / 2 /\ hi - c / 2 < hi)%Q.
+Proof.
+  intros lo hi k Hk Hlt c.
+  exact (conj (angle_axis_n lo hi k Hk Hlt) (conj (angle_axis_divisible lo hi k Hk Hlt)
+        (conj (angle_axis_cell lo hi k Hk Hlt) (angle_axis_inside lo hi k Hk Hlt)))).
+Qed.
+Print Assumptions C19_angle_mesh_axis.
+
+Example C19_angle_mesh_nonvacuous :
+  check_angle_mesh_example = true.
+Proof. vm_compute. reflexivity. Qed.
+
+(* --- demag tensor assembly --- *)
+(* the 64-term signed sum is minus the triple second difference of the Newell-type function *)
+Theorem C19_N_sum_is_triple_second_difference : forall (K : FOps), FLaws K ->
+  forall (F_ : K -> K -> K -> K) x y z dx dy dz,
+  N_sum K F_ x y z dx dy dz
+  = fopp (dd2 K (fun a => dd2 K (fun b => dd2 K (fun c => F_ a b c) z dz) y dy) x dx).
+Proof. exact N_sum_second_difference. Qed.
+Print Assumptions C19_N_sum_is_triple_second_difference.
+
+(* cyclic relabelling of coordinates TOGETHER WITH the cell edges (restored by 56936a1f; the earlier
+   C19_N_relabel_refuted of the design no longer applies to the code at HEAD) *)
+Theorem C19_N_relabel : forall (K : FOps) (fN gN : K -> K -> K -> K) pi4 dx dy dz x y z,
+  nth 1 (N6 K fN gN pi4 dx dy dz x y z) (f0 K) = nth 0 (N6 K fN gN pi4 dy dz dx y z x) (f0 K) /\
+  nth 2 (N6 K fN gN pi4 dx dy dz x y z) (f0 K) = nth 0 (N6 K fN gN pi4 dz dx dy z x y) (f0 K) /\
+  nth 5 (N6 K fN gN pi4 dx dy dz x y z) (f0 K) = nth 3 (N6 K fN gN pi4 dy dz dx y z x) (f0 K).
+Proof. exact N6_relabel. Qed.
+Print Assumptions C19_N_relabel.
